@@ -224,7 +224,10 @@ def _big_stack():
 
 
 def run_oracle(text, timeout=600):
-    p = subprocess.run([ORACLE], input=text.encode(), stdout=subprocess.PIPE, stderr=subprocess.PIPE, timeout=timeout, preexec_fn=_big_stack)
+    try:
+        p = subprocess.run([ORACLE], input=text.encode(), stdout=subprocess.PIPE, stderr=subprocess.PIPE, timeout=timeout, preexec_fn=_big_stack)
+    except subprocess.TimeoutExpired:
+        return [], -9, 'the extracted model did not finish within %d s' % timeout
     rc, o, e = p.returncode, p.stdout, p.stderr
     return [ln.strip() for ln in o.decode().splitlines()], rc, e.decode(errors='replace')
 
